@@ -52,6 +52,13 @@ class Module:
             raise AnalysisError("cannot parse %s: %s" % (rel, e))
         from .canon import canonicalise
         self.renamed = canonicalise(self.tree, rel)  # local names back to the reference spelling
+        self.equiv = {}
+        if not os.environ.get("SA_NO_REFEQ"):
+            from .refeq import substitute
+            try:
+                self.equiv = substitute(self.tree, rel)  # functions proven equivalent to their reference version are replaced by it
+            except RecursionError:
+                self.equiv = {}
         self.name = rel[:-3].replace("/", ".")
         if self.name.endswith(".__init__"):
             self.name = self.name[: -len(".__init__")]
